@@ -18,3 +18,6 @@ import Norad.Props.C08
 #print axioms C08.source_save_order_matches_plan
 #print axioms C08.source_plan_refusal_has_no_effect
 #print axioms C08.source_refuses_whenever_model_does
+#print axioms C08.source_save_table_eq_model
+#print axioms C08.source_table_refusals_precede_wipe
+#print axioms C08.source_save_table_parses
